@@ -17,9 +17,45 @@ OUTDIR = "out/dir"
 ALPHA = "/." + chr(0) + chr(92) + "aH:~"          # path separators, dot, NUL, backslash, ordinary letters, drive colon, tilde
 
 
+class PathStub:
+    """os.path over a recording stub file system without symbolic links: the pure functions are posixpath's, exists / isfile / lexists answer from the stub,
+    realpath / abspath are normpath relative to /cwd (any other attribute is an AttributeError of the harness, not of the code under test)"""
+    sep, altsep, pardir, curdir, extsep = "/", None, "..", ".", "."
+    PURE = ("join", "dirname", "basename", "normpath", "split", "splitext", "isabs", "commonpath", "commonprefix", "normcase", "splitdrive", "expanduser")
+
+    def __init__(self, exists):
+        self.exists = self.lexists = self.isfile = exists
+
+    def realpath(self, p, **kw):
+        return posixpath.normpath(posixpath.join("/cwd", p))
+    abspath = realpath
+
+    def relpath(self, p, start="."):
+        return posixpath.relpath(self.realpath(p), self.realpath(start))
+
+    def isdir(self, p):
+        return False
+
+    def __getattr__(self, name):
+        if name in PathStub.PURE:
+            return getattr(posixpath, name)
+        raise AttributeError(name)
+
+
 def _inside(path: str, directory: str) -> bool:
     q = posixpath.normpath(path)
     return "\0" not in path and posixpath.dirname(q) == posixpath.normpath(directory) and posixpath.basename(q) not in ("", ".", "..")
+
+
+def cmap_confined_sibling(name: str, exists_in_env: bool, exists_in_pkg: bool) -> bool:
+    """
+    pre: len(name) <= 7
+    post: _
+    """
+    return _cmap_confined(name, exists_in_env, exists_in_pkg, "/e/a/")
+
+
+ALPHA_SIBLING = "./a"        # with CMAP_PATH=/e/a/ these letters spell sibling directories such as ../aa/a (a prefix test without the trailing separator lets them through)
 
 
 def cmap_confined(name: str, exists_in_env: bool, exists_in_pkg: bool) -> bool:
@@ -27,6 +63,10 @@ def cmap_confined(name: str, exists_in_env: bool, exists_in_pkg: bool) -> bool:
     pre: len(name) <= 5
     post: _
     """
+    return _cmap_confined(name, exists_in_env, exists_in_pkg, ENVDIR)
+
+
+def _cmap_confined(name, exists_in_env, exists_in_pkg, ENVDIR):          # not a contract function: the directory is fixed by the two wrappers above
     probed: List[str] = []
     opened: List[str] = []
 
@@ -46,9 +86,7 @@ def cmap_confined(name: str, exists_in_env: bool, exists_in_pkg: bool) -> bool:
     real_os, real_gzip = cmapdb.os, cmapdb.gzip
     cmapdb.os = types.SimpleNamespace(
         environ={"CMAP_PATH": ENVDIR},
-        path=types.SimpleNamespace(join=posixpath.join, dirname=posixpath.dirname, exists=fake_exists, basename=posixpath.basename,
-                                   normpath=posixpath.normpath, abspath=posixpath.abspath, sep="/"),
-        sep="/", altsep=None)
+        path=PathStub(fake_exists), sep="/", altsep=None, pardir="..", curdir=".")
     cmapdb.gzip = types.SimpleNamespace(open=FakeGz)
     try:
         try:
@@ -82,8 +120,7 @@ def image_name_confined(name: str, taken: int, ext_i: int) -> bool:
         probes.append(p)
         return len(probes) <= taken           # the first `taken` candidates already exist
     real_os = image.os
-    image.os = types.SimpleNamespace(path=types.SimpleNamespace(join=posixpath.join, exists=fake_exists, basename=posixpath.basename, dirname=posixpath.dirname,
-                                                                normpath=posixpath.normpath, sep="/"), sep="/", altsep=None, makedirs=lambda *a, **k: None)
+    image.os = types.SimpleNamespace(path=PathStub(fake_exists), sep="/", altsep=None, pardir="..", curdir=".", makedirs=lambda *a, **k: None)
     try:
         w = image.ImageWriter.__new__(image.ImageWriter)
         w.outdir = OUTDIR
